@@ -97,6 +97,10 @@ def run(R):
         err_payload = lambda t: term_contains(t, lambda x: x and x[0] == 'variant' and x[2] == 'Err' and term_contains(x, lambda y: is_call(y, name='poll_next')))
         ok_payload = lambda t: term_contains(t, lambda x: x and x[0] == 'variant' and x[2] == 'Ok' and term_contains(x, lambda y: is_call(y, name='poll_next')))
         got = {}
+        inline_end = end_of_source_rows(tonic, pf, rows)[0] is None
+        if inline_end:
+            # EncodeState::trailers() no longer exists as a method: its decision table must then hold on poll_frame's own paths
+            check_end_of_source(R, 'C02.R3', tonic, pf, rows)
         for r in rows:
             st = site(pf, r['path'][-1])
             if r['res'] == 'Ok':
@@ -119,8 +123,9 @@ def run(R):
             elif r['res'] == 'Err':
                 R.bad('C02.R3', 'err-role-undecided', st, 'an Err item is turned into %s without looking at the role' % r['kind'])
             elif r['item'] == 'None':
-                got['end'] = got.get('end', True) and r['kind'] == 'state-trailers'
-                R.check(r['kind'] == 'state-trailers', 'C02.R3', 'none->state.trailers()', st, 'end of the source -> EncodeState::trailers(): outcome %s' % r['kind'])
+                oks = r['kind'] == 'state-trailers' or (inline_end and r['kind'] in ('trailers', 'none'))
+                got['end'] = got.get('end', True) and oks
+                R.check(oks, 'C02.R3', 'none->state.trailers()', st, 'end of the source -> EncodeState::trailers() (or its decision table inline): outcome %s' % r['kind'])
         for k in ('data', 'client-err', 'server-err', 'end'):
             R.check(got.get(k) is not None, 'C02.R3', 'row-present:%s' % k, site(pf), 'outcome row %s recognised: %r' % (k, got.get(k)))
 
